@@ -627,7 +627,12 @@ func runC20(w *eng.W) {
 	}
 	for d := 1; d <= maxDepth && len(frontier) > 0; d++ {
 		var next [][]int
+		cut := false
 		for _, h := range frontier {
+			if w.Expired() {
+				cut = true
+				break
+			}
 			for op := 0; op < nops; op++ {
 				ops := append(append([]int(nil), h...), op)
 				w.Trans(1)
@@ -650,6 +655,10 @@ func runC20(w *eng.W) {
 				outcome(k)
 				next = append(next, ops)
 			}
+		}
+		if cut {
+			w.Cap(fmt.Sprintf("merged search stopped inside depth %d (depth %d complete)", d, d-1))
+			break
 		}
 		frontier = next
 		w.NoteMax("max:merged_depth_completed", int64(d))
